@@ -92,6 +92,30 @@ def laws(ld):
     for i, s in enumerate(SL):
         L[f'map-slice-{i}'] = (lambda d, s=s: (need(d.indexable), d.map(F)[s])[1],
                                lambda d, s=s: (need(d.indexable), d[s].map(F))[1])
+    # ... also for a function that is only defined on the selected examples
+    # (it raises for every example the slice leaves out): map distributes over
+    # slicing without evaluating what the slice excludes
+    class Undefined(Exception):
+        pass
+
+    def partial_fn(d, s):
+        need(d.indexable)
+        n = n_of(d)
+        need(n >= 3)
+        sel = list(range(n))[s]
+        inside = {sid(d[j]) for j in sel}
+        outside = {sid(d[j]) for j in range(n) if j not in sel}
+        need(outside and not (inside & outside))
+
+        def fp(x):
+            if sid(x) in outside:
+                raise Undefined(sid(x))
+            return ('f', x)
+        return fp
+    for i, s in enumerate((slice(1, None), slice(-2, None), slice(2, 4), slice(1, -1),
+                           slice(None, None, 2), slice(None, 1, -1))):
+        L[f'map-slice-partial-fn-{i}'] = (lambda d, s=s: d.map(partial_fn(d, s))[s],
+                                          lambda d, s=s: d[s].map(partial_fn(d, s)))
     for seed in (1, 2):
         def lhs(d, seed=seed):
             need(d.indexable)
@@ -270,6 +294,11 @@ def run_one(ld, L, prog, law, qname, res):
     res.count('law_instances_compared')
     res.seen('laws', law.rsplit('-', 1)[0] if law[-1].isdigit() else law)
     bad = compare(oa, obb)
+    if not bad and 'partial-fn' in law:
+        # one side evaluates an example the other (rightly) never touches
+        ea, eb = oa.get('iter1'), obb.get('iter1')
+        if is_err(ea) != is_err(eb) and 'Undefined' in repr(ea if is_err(ea) else eb):
+            bad = [('iter1', ea, eb)]
     if bad:
         family = law.rsplit('-', 1)[0] if law[-1].isdigit() else law
         res.violation('law-violated', case,
